@@ -51,7 +51,14 @@ def run(ctx):
         base = (k0, m1lib.all_level_ids(f0), m1lib.fp_multiset(f0, None, 1024))
         for j in range(ctx.n(3, 30)):
             m2, order = renumbered(m, rng)
-            f1, obs1, k1 = molfacts.impl_run(m2, cid, o)
+            if j % 2 == 1:
+                # the SAME Fingerprinter object that fingerprinted the original numbering (and the previous permutations): the property
+                # holds for whatever object computes the fingerprint
+                f0.run(cid, m2)
+                f1, obs1, k1 = f0, molfacts.observe(f0), int(f0.current_level)
+                stats['permutations_on_reused_object'] = stats.get('permutations_on_reused_object', 0) + 1
+            else:
+                f1, obs1, k1 = molfacts.impl_run(m2, cid, o)
             stats['permutations'] += 1
             ctx.count(('perm', name, cid, str(o), tuple(order)), k0 >= 1 and order != sorted(order))
             got = (k1, m1lib.all_level_ids(f1), m1lib.fp_multiset(f1, None, 1024))
